@@ -1,7 +1,7 @@
 (* C04 -- property theorems only.  Proofs live in C04/Proofs*.v. *)
 From Coq Require Import NArith Arith List Bool.
 From DV Require Import Base.Outcome Base.Bytes Base.Lex Base.Names Base.PName C04.Gen C04.Model
-  C04.ProofsLabel C04.ProofsIter C04.ProofsRepr C04.ProofsData C04.ProofsParsed C04.ProofsEmbed.
+  C04.ProofsLabel C04.ProofsIter C04.ProofsRepr C04.ProofsData C04.ProofsParsed C04.ProofsEmbed C04.ProofsOrder.
 Import ListNotations.
 Local Open Scope N_scope.
 
@@ -149,6 +149,46 @@ Theorem C04_hinfo_canonical_bytewise : forall c1 o1 c2 o2, (length c1 <= 255)%na
 Proof. exact hinfo_canonical_bytewise. Qed.
 Print Assumptions C04_hinfo_canonical_bytewise.
 
+Theorem C04_name1_canonical_bytewise : forall n1 n2, valid_abs n1 -> valid_abs n2 -> fields_cmp (rd_name1 n1) (rd_name1 n2) = Ok (lex_cmp (fields_enc (rd_name1 n1)) (fields_enc (rd_name1 n2))).
+Proof. exact name1_canonical_bytewise. Qed.
+Print Assumptions C04_name1_canonical_bytewise.
+
+Theorem C04_name2_canonical_bytewise : forall a1 b1 a2 b2, valid_abs a1 -> valid_abs b1 -> valid_abs a2 -> valid_abs b2 -> fields_cmp (rd_name2 a1 b1) (rd_name2 a2 b2) = Ok (lex_cmp (fields_enc (rd_name2 a1 b1)) (fields_enc (rd_name2 a2 b2))).
+Proof. exact name2_canonical_bytewise. Qed.
+Print Assumptions C04_name2_canonical_bytewise.
+
+Theorem C04_tlsa_canonical_bytewise : forall u1 s1 m1 d1 u2 s2 m2 d2, fields_cmp (rd_tlsa u1 s1 m1 d1) (rd_tlsa u2 s2 m2 d2) = Ok (lex_cmp (fields_enc (rd_tlsa u1 s1 m1 d1)) (fields_enc (rd_tlsa u2 s2 m2 d2))).
+Proof. exact tlsa_canonical_bytewise. Qed.
+Print Assumptions C04_tlsa_canonical_bytewise.
+
+Theorem C04_sshfp_canonical_bytewise : forall a1 t1 f1 a2 t2 f2, fields_cmp (rd_sshfp a1 t1 f1) (rd_sshfp a2 t2 f2) = Ok (lex_cmp (fields_enc (rd_sshfp a1 t1 f1)) (fields_enc (rd_sshfp a2 t2 f2))).
+Proof. exact sshfp_canonical_bytewise. Qed.
+Print Assumptions C04_sshfp_canonical_bytewise.
+
+Theorem C04_zonemd_canonical_bytewise : forall s1 c1 a1 d1 s2 c2 a2 d2, fields_cmp (rd_zonemd s1 c1 a1 d1) (rd_zonemd s2 c2 a2 d2) = Ok (lex_cmp (fields_enc (rd_zonemd s1 c1 a1 d1)) (fields_enc (rd_zonemd s2 c2 a2 d2))).
+Proof. exact zonemd_canonical_bytewise. Qed.
+Print Assumptions C04_zonemd_canonical_bytewise.
+
+Theorem C04_rrsig_canonical_bytewise : forall c1 a1 l1 o1 e1 i1 t1 n1 s1 c2 a2 l2 o2 e2 i2 t2 n2 s2, valid_abs n1 -> valid_abs n2 -> fields_cmp (rd_rrsig c1 a1 l1 o1 e1 i1 t1 n1 s1) (rd_rrsig c2 a2 l2 o2 e2 i2 t2 n2 s2) = Ok (lex_cmp (fields_enc (rd_rrsig c1 a1 l1 o1 e1 i1 t1 n1 s1)) (fields_enc (rd_rrsig c2 a2 l2 o2 e2 i2 t2 n2 s2))).
+Proof. exact rrsig_canonical_bytewise. Qed.
+Print Assumptions C04_rrsig_canonical_bytewise.
+
+Theorem C04_nsec3_canonical_bytewise : forall h1 f1 i1 s1 n1 t1 h2 f2 i2 s2 n2 t2, (length s1 <= 255)%nat -> (length n1 <= 255)%nat -> (length s2 <= 255)%nat -> (length n2 <= 255)%nat -> fields_cmp (rd_nsec3 h1 f1 i1 s1 n1 t1) (rd_nsec3 h2 f2 i2 s2 n2 t2) = Ok (lex_cmp (fields_enc (rd_nsec3 h1 f1 i1 s1 n1 t1)) (fields_enc (rd_nsec3 h2 f2 i2 s2 n2 t2))).
+Proof. exact nsec3_canonical_bytewise. Qed.
+Print Assumptions C04_nsec3_canonical_bytewise.
+
+Theorem C04_nsec3param_canonical_bytewise : forall h1 f1 i1 s1 h2 f2 i2 s2, (length s1 <= 255)%nat -> (length s2 <= 255)%nat -> fields_cmp (rd_nsec3param h1 f1 i1 s1) (rd_nsec3param h2 f2 i2 s2) = Ok (lex_cmp (fields_enc (rd_nsec3param h1 f1 i1 s1)) (fields_enc (rd_nsec3param h2 f2 i2 s2))).
+Proof. exact nsec3param_canonical_bytewise. Qed.
+Print Assumptions C04_nsec3param_canonical_bytewise.
+
+Theorem C04_caa_canonical_bytewise : forall f1 t1 v1 f2 t2 v2, (length t1 <= 255)%nat -> (length t2 <= 255)%nat -> fields_cmp (rd_caa f1 t1 v1) (rd_caa f2 t2 v2) = Ok (lex_cmp (fields_enc (rd_caa f1 t1 v1)) (fields_enc (rd_caa f2 t2 v2))).
+Proof. exact caa_canonical_bytewise. Qed.
+Print Assumptions C04_caa_canonical_bytewise.
+
+Theorem C04_naptr_canonical_bytewise : forall o1 p1 f1 s1 r1 n1 o2 p2 f2 s2 r2 n2, (length f1 <= 255)%nat -> (length s1 <= 255)%nat -> (length r1 <= 255)%nat -> valid_abs n1 -> (length f2 <= 255)%nat -> (length s2 <= 255)%nat -> (length r2 <= 255)%nat -> valid_abs n2 -> fields_cmp (rd_naptr o1 p1 f1 s1 r1 n1) (rd_naptr o2 p2 f2 s2 r2 n2) = Ok (lex_cmp (fields_enc (rd_naptr o1 p1 f1 s1 r1 n1)) (fields_enc (rd_naptr o2 p2 f2 s2 r2 n2))).
+Proof. exact naptr_canonical_bytewise. Qed.
+Print Assumptions C04_naptr_canonical_bytewise.
+
 Theorem C04_nsec_canonical_bytewise : forall vs n1 t1 n2 t2, valid_abs n1 -> valid_abs n2 -> ~ nsec_self_compare vs t1 t2 -> nsec_canonical_cmp_gen vs n1 t1 n2 t2 = Ok (lex_cmp (nsec_enc n1 t1) (nsec_enc n2 t2)).
 Proof. exact nsec_canonical_bytewise. Qed.
 Print Assumptions C04_nsec_canonical_bytewise.
@@ -197,6 +237,14 @@ Theorem C04_unknown_eq_hash_refuted : exists r1 r2 d, unknown_eq_gen false r1 d 
 Proof. exact unknown_eq_hash_refuted. Qed.
 Print Assumptions C04_unknown_eq_hash_refuted.
 
+Theorem C04_all_record_data_eq_refl : forall with_rtype r d, all_eq_gen true (unknown_eq_gen with_rtype r d r d) = true /\ all_eq_gen true (bytes_eqb d d) = true.
+Proof. exact all_record_data_eq_refl. Qed.
+Print Assumptions C04_all_record_data_eq_refl.
+
+Theorem C04_all_record_data_eq_refuted : forall inner, all_eq_gen false inner = false.
+Proof. exact all_record_data_eq_refuted. Qed.
+Print Assumptions C04_all_record_data_eq_refuted.
+
 Theorem C04_record_eq_hash : forall a b, (forall f, In f record_eq_fields -> c_eq (a f) = c_eq (b f) -> c_feed (a f) = c_feed (b f)) -> m_record_eq a b = true -> m_record_hash a = m_record_hash b.
 Proof. exact record_eq_hash. Qed.
 Print Assumptions C04_record_eq_hash.
@@ -224,6 +272,14 @@ Print Assumptions C04_record_rrset_order.
 Theorem C04_record_canonical_antisym : forall a b, m_record_canonical_cmp b a = CompOpp (m_record_canonical_cmp a b).
 Proof. exact record_canonical_antisym. Qed.
 Print Assumptions C04_record_canonical_antisym.
+
+Theorem C04_record_canonical_trans : forall a b c o, m_record_canonical_cmp a b = o -> m_record_canonical_cmp b c = o -> m_record_canonical_cmp a c = o.
+Proof. exact record_canonical_trans. Qed.
+Print Assumptions C04_record_canonical_trans.
+
+Theorem C04_record_canonical_eq_subst : forall a b c, m_record_canonical_cmp a b = Eq -> m_record_canonical_cmp a c = m_record_canonical_cmp b c.
+Proof. exact record_canonical_eq_subst. Qed.
+Print Assumptions C04_record_canonical_eq_subst.
 
 Theorem C04_record_canonical_eq_iff : forall a b, m_record_canonical_cmp a b = Eq <-> r_class a = r_class b /\ name_eqb (r_owner a) (r_owner b) = true /\ r_rtype a = r_rtype b /\ r_rdata a = r_rdata b.
 Proof. exact record_canonical_eq_iff. Qed.
